@@ -6,6 +6,7 @@ bound, (d) trace equality between the single-string delivery (reference) and eve
 from __future__ import annotations
 
 import io
+import tempfile
 import itertools
 from typing import Any, Dict, List, Optional, Tuple
 
@@ -55,11 +56,12 @@ def trace(data: Any, opts: Dict[str, bool], n_hint: int, counting: bool = False)
     """Token trace of one delivery: [(token, value, line_num)...] ending in EOF x4 or an error record."""
     from srctools.tokenizer import Tokenizer, Token, TokenSyntaxError
     cls = counting_cls() if counting else Tokenizer
-    tok = cls(data, **opts)
     out: list = []
     eof = Token.EOF
     limit = n_hint + 8
+    tok = None
     try:
+        tok = cls(data, **opts)
         for _ in range(limit):
             t, v = tok()
             out.append((t, v, tok.line_num))
@@ -284,6 +286,13 @@ def random_docs(run, shard, thorough: bool) -> None:
         check_trace_sanity(run, text, opts, ref, steps, 'random')
         dl: List[Tuple[str, Any]] = [('lines', text.splitlines(keepends=True)), ('file', io.StringIO(text, newline='')),
                                      ('chars', list(text))]
+        if i % 4 == 0:
+            # a file object as the operating system hands it out (its .name is the descriptor number, an int)
+            rf = tempfile.TemporaryFile('w+', encoding='utf8', errors='surrogatepass', newline='')
+            rf.write(text)
+            rf.seek(0)
+            dl.append(('TemporaryFile', rf))
+            run.count('real_file_deliveries')
         nt = False
         # every single cut position (exhaustive over the delivery schedules with two chunks)
         for cut in range(1, len(text)):
@@ -413,7 +422,7 @@ def main(run, shard=(0, 1)) -> None:
     kv_exhaustive(run, shard, thorough)
     run.sample({'text': '"a\r', 'chunks': ['"a', '\r'], 'opts': '0010000'}, 'exhaustive')
     probe.check_reached(run)
-    run.require('exhaustive_text_x_options', 'focused_text_x_options', 'deliveries_compared', 'kv_parse_calls', 'kv_exhaustive_texts_x_options')
+    run.require('real_file_deliveries', 'exhaustive_text_x_options', 'focused_text_x_options', 'deliveries_compared', 'kv_parse_calls', 'kv_exhaustive_texts_x_options')
 
 
 def replay(run, data) -> None:
